@@ -274,8 +274,7 @@ def cleanerStep (fs : FS) (t : Th) : Option (FS × Th × String) :=
   | 21 => if fs.ol.linked then some (fs, { t with pc := 22 }, "open ol") else fin .anotherInstance "open ol"
   | 22 => if fs.st.linked then some (fs, { t with pc := 23 }, "open st") else fin .anotherInstance "open st"
   | 23 => if fs.st.lockedByOther p then fin .panicStillAlive "getlk st" else some (fs, { t with pc := 24 }, "getlk st")
-  | 24 => if fs.ol.lockedByOther p then
-            (if fs.ol.linked then fin .anotherInstance "setlk ol" else fin .alreadyCleanedUp "setlk ol")   -- EAGAIN; nlink == 0 → DoesNotExist
+  | 24 => if fs.ol.lockedByOther p then some (fs, { t with pc := 43 }, "setlk ol")               -- EAGAIN: try_lock looks at the link count next
           else some ({ fs with ol := { fs.ol with lock := some p } }, { t with pc := 25 }, "setlk ol")
   -- service tags (none modelled), port tags: listing = the tags with final permissions
   -- a failing service-level removal: `cleanup_failure?` (node/mod.rs:661) returns while the cleaner is a live local: it is DROPPED
@@ -302,6 +301,8 @@ def cleanerStep (fs : FS) (t : Th) : Option (FS × Th × String) :=
   | 40 => some ({ fs with st := fs.st.closeBy p }, { t with pc := 41 }, "close st")
   | 41 => some ({ fs with ol := fs.ol.closeBy p }, { t with pc := 42 }, "close ol")
   | 42 => some ({ fs with ctx := fs.ctx.closeBy p }, { t with pc := pcDone, res := some .internalError }, "close ctx")
+  -- file_descriptor.rs:387-392: F_SETLK failed; fstat: nlink == 0 → FileRemovedFromFileSystem → DoesNotExist, else OwnedByAnotherProcess
+  | 43 => if fs.ol.linked then fin .anotherInstance "fstat ol" else fin .alreadyCleanedUp "fstat ol"
   | pc =>
     if 2 ≤ pc ∧ pc ≤ 10 then          -- Node::list → NodeState::new → state()
       match qstep fs p (pc - 2) with
